@@ -29,6 +29,9 @@ CHECKS = {
  "C08": ("other", "whole-package panic-site census: index/slice bounds discharged by linear integer entailment (Fourier-Motzkin over path facts with overflow-aware arithmetic atoms, inductive loop bounds, by-case inlining of length helpers, interprocedural preconditions); nil/reflect/type-assertion/division sites discharged by path-sensitive facts (go/ssa)", "DESIGN.md §3 R-BND/R-NIL/R-REFL/R-CANIF/R-TA/R-DIV, §4 C08",
    "Every instruction of the package that can panic on an argument value - index, slice and string-index expressions (about 110 non-trivial sites), nil dereferences (about 1460), panicking reflect.Value calls, unchecked type assertions, integer divisions - is proved safe on every path for unconstrained 64-bit integers (sums/differences are related to their operands only where overflow is excluded, so MinInt/MaxInt are covered) and arbitrary element values (typed nils of any depth, zero Stacks/Conditions, zero reflect.Values, unexported struct fields), or turned into a precondition checked at every call site; exported entry points may require nothing. Element writes and user-visible element reads on a stack need index >= 1, so the configuration slot cannot be written or returned through any index, and no element write is reachable with an out-of-range index.",
    "Level other: the census is close to a proof of panic freedom but the domains are hand-written. One site assumed (Defrag's truncation index; DESIGN.md). '-k addresses the k-th from the end' is decided only as the proved result range of the index translation; panics inside user closures/String() methods and runtime panics (out of memory, stack overflow through self-containing stacks) are excluded."),
+ "C04": ("other", "table extraction and agreement checks between writer and reader (kind/word/constructor round trip, label comparisons, CONDITION row positions) + loop-shape and carried-value checks of the emit loop and the re-processing loop (go/ssa, path-sensitive states)", "DESIGN.md §3 R-TBL, §4 C04",
+   "Writer and reader agree on labels (case-insensitively), on the kind/word/constructor table, on the CONDITION row (width and field positions); the writer emits the label and exactly one entry per slot in order (nil slots included, nested instances through the converters); the reader re-processes every nested slice and replaces it in place by what it decoded from that very slice.",
+   "Necessary conditions (level other): round-trip equality over trees is not decided."),
  "C05": ("other", "loop-latch analysis of the error variable in every comparison loop (path-sensitive states at each comparison call), counter/bound/accessor shape checks, nil-return-only-after-clean-comparisons check, component-coverage check on accepting paths, reflect-method classification + panic-site census restricted to IsEqual's scope (go/ssa)", "DESIGN.md §3 R-LOOPRET/R-COVER/R-REFL, §4 C05",
    "In every comparison loop a recorded difference cannot be overwritten or dropped (comparisons run only while the error variable is nil; the function returns it), every index from 0 to the length is compared at the same position on both sides and the loop cannot be left early without a difference; no equality function returns nil after a comparison reported a difference; keyword, operator (text+context or both absent), expression, length/capacity, kind and every element take part on accepting paths; comparing cannot panic (typed nils, zero Values, unexported fields, missing keys; every reflect method used is classified).",
    "Necessary conditions (level other); symmetry and per-kind completeness not decided; the []Stack-leaf gap is documented, not decided."),
@@ -44,6 +47,9 @@ CHECKS = {
  "C15": ("other", "effect (write-set) analysis rooted at the source + guard facts at the worker call + linear entailment of the free-slot condition at the push + copy-loop shape and verdict-expression checks + scoped panic-site census (go/ssa)", "DESIGN.md §3 R-XFER, §4 C15",
    "Transfer writes nothing rooted at the source and never pushes when destination == source; the worker runs only for an initialised source and a convertible, writable destination (flag read from the destination); nothing is pushed unless the elements fit the destination's free slots; the loop copies src.index(0..Len-1), nil elements included, one per iteration; success is exactly 'the destination grew by Len(src)'; no destination value can panic.",
    "Level other: order of the copied elements in the destination follows from C01's push rule, not restated here."),
+ "C16": ("other", "panic-site census (nil, type assertion, bounds, reflect) restricted to Marshal's scope with interprocedural preconditions + outcome analysis of every return path of marshalDefault / extractConditionValues / Marshal (error, constructor-built Stack, vouched Condition, seated handle) + label and row table checks (go/ssa)", "DESIGN.md §3 R-BND/R-TBL, §4 C16",
+   "No []any input can panic Marshal (every index, re-slice and assertion in its scope is guarded for all shapes); every return path ends in a non-nil error or an initialised receiver, an initialised receiver gains at most one element; labels are honoured case-insensitively, an unrecognised first element yields a BASIC stack of all entries.",
+   "Level other; behaviour of the resulting stack under String/Unmarshal/IsEqual is covered by C08's census."),
  "C17": ("other", "whole-package census of nil-dereference and reflect panic sites discharged by path-sensitive facts, relational summaries and (conditional) interprocedural preconditions; re-analysis under a nil handle for zero results (go/ssa)", "DESIGN.md §3 R-INIT/R-NIL/R-REFL/R-HANDLE, §4 C17",
    "Every nil-panic-capable instruction (about 1460) and every panicking reflect.Value call of the package is discharged on every path or turned into a precondition checked at all call sites; exported methods may require nothing of their receiver, so zero-valued and freed instances cannot panic. Only Free/Marshal/Init can write a handle (type-level + effect check). Each exported value-receiver method is re-analysed assuming a nil embedded pointer: all return paths yield the zero answer (documented exceptions listed). Reset's reachable code has no branch on an element being nil and writes only content.",
    "Level other (a census with discharge is close to a proof of nil/reflect panic freedom, but the domains are hand-written). Assumes the pointer receiver of the four pointer-receiver methods is non-nil; user closures excluded; index-range panics belong to C08."),
